@@ -155,6 +155,7 @@ func gen(g *common.Gen) {
 		}
 		g.Op("lf")
 		g.Op("ls")
+		g.Op("wb") // white-box dump, informational (coverage tags wb-*), never a verdict
 		g.Stat("histories")
 	}
 }
